@@ -773,6 +773,7 @@ func (c *simContext) AfterFunc(f func()) (stop func() bool) {
 		defer c.mu.Unlock()
 		if c.live[idx] {
 			c.live[idx] = false
+			c.afters[idx] = nil
 			c.Stopped++
 			return true
 		}
